@@ -2,7 +2,7 @@
    [pt] (instants in ns); what the model computes for the next point is tied to it by two premises
    (NA / INIT) that are discharged below for hourly / minutely rotation (pt = P0 + j * period) and,
    for daily rotation, follow from the grid property of the libc-derived next-point function. *)
-From Coq Require Import List NArith Bool Lia.
+From Coq Require Import List NArith Bool Lia Sorted.
 From Quill Require Import Rotate.RotFS Rotate.RotFSProofs Rotate.RotModel Rotate.RotChain Rotate.RotInv Rotate.RotRun.
 Import ListNotations.
 Open Scope N_scope.
@@ -394,6 +394,64 @@ Proof.
   destruct HM as [_ [_ M3]]. apply (IH ts); auto; cbn [rot_step].
   - apply write_log_inv; auto.
   - apply write_name_ok; auto.
+Qed.
+
+(* rot_names_order, Date / DateAndTime: with non-decreasing timestamps the deque is sorted by open
+   instant, so (strftime being monotone) an earlier date is an older file *)
+Definition open_sorted (s : rstate) : Prop := StronglySorted (fun a b => g_open b <= g_open a) (dq s).
+
+Lemma ssorted_map_gopen : forall g l, (forall f, g_open (g f) = g_open f) ->
+  StronglySorted (fun a b => g_open b <= g_open a) l -> StronglySorted (fun a b => g_open b <= g_open a) (map g l).
+Proof.
+  intros g l Hg. induction 1 as [|a l S IH F]; cbn [map]; constructor; auto.
+  rewrite Forall_forall in *. intros y Hy. apply in_map_iff in Hy as [z [Ez Hz]]. subst y. rewrite !Hg. auto.
+Qed.
+
+Lemma ssorted_removelast : forall A (R : A -> A -> Prop) l, StronglySorted R l -> StronglySorted R (removelast l).
+Proof.
+  intros A R l. induction 1 as [|a l S IH F]; cbn [removelast]; [constructor|].
+  destruct l; [constructor|]. constructor; auto. apply Forall_removelast; auto.
+Qed.
+
+Lemma rotate_open_sorted : forall ts s, Inv c s -> open_sorted s -> ots s <= ts ->
+  open_sorted (rotate_files strf c ts s) /\ ots (rotate_files strf c ts s) <= ts.
+Proof.
+  intros ts s HI HS Hle. destruct (rot_fires c s) eqn:F.
+  2:{ rewrite rotate_noop by auto. auto. }
+  rewrite rotate_fires by auto. split; [|cbn [rotated ots]; lia].
+  unfold open_sorted. cbn [rotated dq].
+  assert (S1 : StronglySorted (fun a b => g_open b <= g_open a) (dq1_of strf c s)).
+  { unfold dq1_of. apply ssorted_map_gopen; auto. intro; apply bump_gopen. }
+  assert (B1 : forall f, In f (dq1_of strf c s) -> g_open f <= ots s).
+  { intros f Hf. unfold dq1_of in Hf. apply in_map_iff in Hf as [z [Ez Hz]]. subst f. rewrite bump_gopen.
+    destruct (I_head c s HI) as [rest [E _]]. unfold open_sorted in HS. rewrite E in *.
+    destruct Hz as [Hz|Hz]; [subst; cbn; lia|].
+    inversion HS as [|? ? _ Fh]; subst. rewrite Forall_forall in Fh. specialize (Fh z Hz). cbn [mk_live g_open] in Fh. exact Fh. }
+  constructor.
+  - destruct (del_due strf c s); auto. apply ssorted_removelast; auto.
+  - rewrite Forall_forall. intros f Hf. cbn [mk_live g_open].
+    assert (In f (dq1_of strf c s)).
+    { destruct (del_due strf c s); auto.
+      rewrite (app_removelast_last (mk_live c 0) (dq1_nonempty strf c s HI)). apply in_or_app; auto. }
+    specialize (B1 f H). lia.
+Qed.
+
+Lemma write_open_sorted : forall id ts wr cnt s, Inv c s -> open_sorted s -> ots s <= ts ->
+  open_sorted (write_log strf rtm c id ts wr cnt s) /\ ots (write_log strf rtm c id ts wr cnt s) <= ts.
+Proof.
+  intros id ts wr cnt s HI HS Hle. rewrite write_log_eq. unfold open_sorted. cbn [do_append dq ots].
+  destruct (pre_write_cases strf rtm c ts cnt s) as [[_ E] | [[_ [_ E]] | [_ [_ E]]]]; rewrite E; auto.
+  - cbn [set_nrt dq ots]. apply rotate_open_sorted; auto.
+  - apply rotate_open_sorted; auto.
+Qed.
+
+Lemma run_open_sorted : forall ops prev s, Inv c s -> open_sorted s -> ots s <= prev -> mono prev ops ->
+  open_sorted (run s ops).
+Proof.
+  induction ops as [|o ops IH]; intros prev s HI HS Hle HM; cbn [rot_run fold_left]; auto.
+  destruct o as [id ts wr cnt | ? ? ?]; cbn [mono] in HM; [|destruct HM]. destruct HM as [M1 [_ M3]].
+  destruct (write_open_sorted id ts wr cnt s HI HS ltac:(lia)) as [A B].
+  apply (IH ts); auto. cbn [rot_step]. apply write_log_inv; auto.
 Qed.
 
 End Runs.
